@@ -143,7 +143,7 @@ def _polymod_case(n):
     def result_is(values):
         return _b32.polymod(values)
 
-    d = {'params': {'values': FixedList(Int(0, 31), n)}, 'result_is': result_is,
+    d = {'params': {'values': FixedList(Int(0, 31), n)}, 'result_is': result_is, 'bounds': {'merge_ifexp': True},
          '__doc__': '_bech32_polymod equals the BIP173 reference polymod on every list of %d 5-bit values' % n}
     return contract('bitcoinlib.encoding._bech32_polymod', case=name, props=('C11', 'C04'))(type('polymod_%d' % n, (), d))
 
